@@ -186,6 +186,10 @@ func newWorld(id int, ex *explorer) (*world, error) {
 	if err != nil {
 		return nil, err
 	}
+	if p := os.Getenv("SYMGO_SMTLOG"); p != "" {
+		f, _ := os.Create(fmt.Sprintf("%s.%d.smt2", p, id))
+		sv.log = f
+	}
 	w := &world{
 		id: id, ex: ex, prog: ex.prog, tc: newTermCtx(), sv: sv,
 		globals:      make(map[*ssa.Global]*value),
@@ -639,6 +643,14 @@ func (w *world) newBytes(tag string, n int) []value {
 	return r
 }
 
+func (w *world) inputVars() []*Term {
+	var vs []*Term
+	for _, in := range w.inputs {
+		vs = append(vs, in.terms...)
+	}
+	return vs
+}
+
 // modelInputs renders the inputs of the current path under model m.
 func (w *world) modelInputs(m map[string]*Term) []inputRec {
 	out := make([]inputRec, len(w.inputs))
@@ -704,7 +716,7 @@ func (w *world) reportViolation(kind, id, msg string, extra *Term) {
 	var m map[string]*Term
 	r := w.sv.check(extra)
 	if r == rSat {
-		m = w.sv.model(w.tc)
+		m = w.sv.model(w.tc, w.inputVars())
 		w.sv.endModel(extra != nil)
 	} else {
 		m = map[string]*Term{}
@@ -804,7 +816,7 @@ func (w *world) reachMark(id string) {
 	if r != rSat {
 		return
 	}
-	m := w.sv.model(w.tc)
+	m := w.sv.model(w.tc, w.inputVars())
 	ins := w.modelInputs(m)
 	w.ex.mu.Lock()
 	w.ex.reach[id]++
